@@ -29,7 +29,7 @@ const PHDR_FIELDS: [&str; 2] = ["p_offset", "p_filesz"];
 /// number of section / segment slots swept per image
 const SH_SLOTS: u64 = 6;
 const PH_SLOTS: u64 = 3;
-const VALUES: u64 = 15;
+const VALUES: u64 = 17;
 
 fn fields_per_image() -> u64 {
     EHDR_FIELDS.len() as u64
@@ -55,6 +55,8 @@ fn value(i: u64, len: u64, width: usize) -> u64 {
         1 << 63,
         u64::MAX,
         4 * len + 8192,
+        4 * len + 16384,
+        4 * len + 16385,
         4 * len + 8193,
         len / 2,
         0xff00,
